@@ -69,7 +69,12 @@ func init() {
 				if i%3 == 2 {
 					k = "b" // not every transaction's age differs on both keys
 				}
-				h = append(h, seq.Op{Kind: seq.Set, Actor: model.Auto, Key: k})
+				if i%4 == 3 {
+					// every fourth overwrite is a deletion: a version that is a marker
+					h = append(h, seq.Op{Kind: seq.Delete, Actor: model.Auto, Key: k})
+				} else {
+					h = append(h, seq.Op{Kind: seq.Set, Actor: model.Auto, Key: k})
+				}
 			}
 			h = append(h, seq.Op{Kind: seq.GC})
 			var order []int
